@@ -43,6 +43,9 @@ SHIPPED_CASES = [
     ("only normal..tutorial1\n", {"vm1": "", "vm2": "only Win10\n", "vm3": "only Ubuntu\n"}, ["net5", "net1"],
      "eager"),
     ("only leaves..tutorial_gui\n", {"vm1": "", "vm2": "", "vm3": "only Ubuntu\n"}, ["net2", "net5"], "eager"),
+    # one test selected through a nested set (normal.gui) and needed as setup of a test of another set, expanded lazily
+    ("only leaves..tutorial_get..explicit_noop,normal..tutorial_gui\n", {"vm1": "only CentOS\n", "vm2": "only Win10\n",
+                                                                        "vm3": "only Ubuntu\n"}, ["net1"], "lazy"),
 ]
 
 
@@ -293,6 +296,23 @@ def run_cases(ctx, cases, n_mut=2):
                 ctx.violate("double-clone" if double_clone(x) else "name-lookup-not-exact",
                             f"get_nodes_by_name({q}) = {got[:3]}…, contiguous matches are "
                             f"{want[:3]}…", dict(case))
+        # "no two nodes with the same identity": beyond the node ids, no two runnable nodes of one worker may be the same
+        # test (same name below the test set, same objects) - two test sets selecting one test must share its node
+        mains = gl.MAIN_SETS_ALL
+        seen_tests = {}
+        for nd in x["nodes"]:
+            if nd["flat"] or nd["shared_root"]:
+                continue
+            nm = nd["name"]
+            for m in mains:
+                if nm.startswith(m + "."):
+                    nm = nm[len(m) + 1:]
+                    break
+            other = seen_tests.setdefault((nd["worker"], nm), nd["id"])
+            if other != nd["id"] and not double_clone(x):
+                ctx.violate("same-test-parsed-twice", f"nodes {other} and {nd['id']} of {nd['worker']} are the same test {nm[:80]}…",
+                            dict(case))
+                break
         muts = [mutate_graph(ctx.rng, x) for _ in range(n_mut)]
         start = len(lines)
         lines += gl.to_lines(x) + ["check"]
@@ -362,7 +382,8 @@ def correspondence(ctx):
         ship = list(range(len(SHIPPED_CASES)))
         rng.shuffle(ship)
         if not thorough:
-            ship = [6] + [i for i in ship if i != 6][:n_shipped - 1]     # always include the multi-worker restricted case
+            # always include the multi-worker restricted case and the mixed-set lazy case
+            ship = [6, 8] + [i for i in ship if i not in (6, 8)][:n_shipped - 1]
         for i in ship:
             if ctx.remaining(budget) < 0:
                 ctx.notes.append("time budget: shipped-suite cases cut short")
